@@ -184,6 +184,12 @@ def drive(fullgrid, b, o, t, rng):
         fullgrid.from_full_array_to_o_b_t(A)
         tr.from_full_array_to_o_b_t(A)        # the same array object again, through the alias the assignment code uses
         tr.from_full_array_to_o_b_t(A.copy())
+        # history: the package's own consumers of the rotation grid must leave it intact (C07 predicates re-evaluated on the live object,
+        # the array asked again under the C09 monitor)
+        from vlib.props import c07
+        fg.get_body_rotations()
+        c07.grid4d_is_N_unique_rotations(fg.b_rotations.algorithm_name, fg.b_rotations.N, fg.b_rotations)
+        fg.get_full_grid_as_array()
         if fg.get_b_N() >= 2 and fg.get_o_N() >= 2 and fg.get_t_N() >= 2:
             REC.nontrivial_case((b, o, t))
     except Exception as e:
